@@ -347,14 +347,26 @@ def _dataclass(dom, args, kw):
 
 
 # ---------------------------------------------------------------------------------------------- copy / misc stdlib
-@model("copy.copy", "copy.deepcopy")
-def _copy(dom, args, kw):
-    v = args[0]
+def _copy_common(dom, v, deep):
     if isinstance(v, (Sym, int, float, bool, str, bytes, type(None))):
         return v                      # immutable scalars: identity (numpy float64 scalars are immutable too)
     if isinstance(v, Arr):
         return LIB["np.copy"](dom, [v], {})
-    raise Unsupported(f"copy of {type(v).__name__}")
+    if isinstance(v, Obj) and v.cls == "OptimizeResult" and not deep:
+        o = Obj("OptimizeResult", dom.run.new_ref())       # shallow copy of the dict: a new object, the same fields
+        o.f.update(v.f)
+        return o
+    raise Unsupported(f"{'deep' if deep else ''}copy of {type(v).__name__}")
+
+
+@model("copy.copy")
+def _copy(dom, args, kw):
+    return _copy_common(dom, args[0], False)
+
+
+@model("copy.deepcopy")
+def _deepcopy(dom, args, kw):
+    return _copy_common(dom, args[0], True)
 
 
 @model("packaging.version.Version")
@@ -1273,6 +1285,44 @@ def _optimize_result(dom, args, kw):
         raise Unsupported("OptimizeResult positional arguments")
     o = Obj("OptimizeResult", dom.run.new_ref())
     o.f.update(kw)
+    return o
+
+
+# OptimizeResult is a dict whose keys are also attributes
+@model("OptimizeResult.get")
+def _or_get(dom, args, kw):
+    o, key = args[0], args[1]
+    default = args[2] if len(args) > 2 else kw.get("default")
+    if not isinstance(key, str):
+        raise Unsupported("OptimizeResult.get with a non-literal key")
+    return o.f.get(key, default)
+
+
+@model("OptimizeResult.update")
+def _or_update(dom, args, kw):
+    o = args[0]
+    new = dict(kw)
+    for extra in args[1:]:
+        if isinstance(extra, dict):
+            new.update(extra)
+        elif isinstance(extra, Obj) and extra.cls == "OptimizeResult":
+            new.update(extra.f)
+        else:
+            raise Unsupported("OptimizeResult.update argument")
+    for k, v in new.items():
+        dom.setattr(o, k, v)          # frame obligation if the object belongs to the caller
+    return None
+
+
+@model("OptimizeResult.keys")
+def _or_keys(dom, args, kw):
+    return list(args[0].f.keys())
+
+
+@model("OptimizeResult.copy")
+def _or_copy(dom, args, kw):
+    o = Obj("OptimizeResult", dom.run.new_ref())
+    o.f.update(args[0].f)
     return o
 
 
